@@ -102,7 +102,7 @@ def rule_any(ctx: Ctx, rule: str = "C15.any"):
         site = next((n for n in own_nodes(ae.node) if isinstance(n, ast.Call) and isinstance(n.func, ast.Attribute) and n.func.attr == "_on_event_defined"), None)
         rep.violation(rule, ae.loc(site), "from_.any() is expanded while the class attributes are still being visited: states declared "
                       "after the event do not get the transition (differs from declaring the transition on every non-final state)",
-                      ae.key, norm_stmt(site) if site is not None else "_on_event_defined reached from add_from_attributes")
+                      ae.key, "any() expansion reachable from add_from_attributes")
     else:
         rep.ok(rule, afa.loc(), "the any() expansion runs after all states of the class are registered")
     tl = ctx.fn("TransitionList._on_event_defined")
@@ -204,7 +204,14 @@ def rule_attributes(ctx: Ctx):
         for e in p.calls():
             if isinstance(e.term.func, ast.Attribute) and e.term.func.attr == "_replace":
                 its = [i for i in evs[: e.idx] if i.kind == "iter"]
-                guard = [b for b in evs[: e.idx] if b.kind == "branch" and "match(" in xshow(b.term, evs) and b.x["taken"]]
+                guard = []
+                for b in evs[: e.idx]:
+                    if b.kind == "branch" and b.term is not None and "match(" in xshow(b.term, evs):
+                        t_, pol_ = b.term, b.x["taken"]
+                        while isinstance(t_, ast.UnaryOp) and isinstance(t_.op, ast.Not):
+                            t_, pol_ = t_.operand, not pol_
+                        if pol_:
+                            guard.append(b)
                 ok_replace = ok_replace or (len(its) >= 3 and bool(guard) and len(e.term.args) == 2)
         if p.kind == "raise" and "InvalidDefinition" in xshow(p.value, evs):
             ok_raise = True
@@ -284,6 +291,19 @@ def rule_copy(ctx: Ctx, rule: str = "C15.any"):
                     dm = dict_model(p, kw_.value.id)
                     if dm is not None:
                         srcs += " " + " ".join(f"{k_}={xshow(v, p.events)}" for k_, v, _ in dm.writes)
+                    else:
+                        # the caller's own mapping completed in place: kwargs.setdefault("source", self.source) ...
+                        nm_ = kw_.value.id
+                        for e_ in p.events[: ctor[0].idx]:
+                            if e_.kind == "call" and isinstance(e_.term.func, ast.Attribute) and show(e_.term.func.value) == nm_ \
+                                    and e_.term.func.attr == "setdefault" and len(e_.term.args) == 2 and isinstance(e_.term.args[0], ast.Constant):
+                                srcs += f" {e_.term.args[0].value}={xshow(e_.term.args[1], p.events)}"
+                            if e_.kind == "store" and e_.x.get("subscript") and show(e_.term.value) == nm_ and isinstance(e_.term.slice, ast.Constant):
+                                # an unconditional store would override the caller's value: only count guarded ones
+                                guarded = any(b_.kind == "branch" and b_.idx < e_.idx and f"'{e_.term.slice.value}'" in show(b_.term) and nm_ in show(b_.term)
+                                              for b_ in p.events)
+                                if guarded:
+                                    srcs += f" {e_.term.slice.value}={xshow(e_.x['value'], p.events)}"
             ok = all(f"self.{nm}" in srcs for nm in ("source", "target", "event", "internal")) and "kwargs" in srcs
             rep.check(ok, rule, ctor[0].loc(), "the copy takes source/target/event/internal from the overrides or else from the original", fn.key,
                       norm_stmt(ctor[0].node))
